@@ -41,6 +41,22 @@ def sequential_graph(c, quick):
     return r.graph
 
 
+def setback_leg(c, quick, rng, wd):
+    """Limiter!SetBack: the wall clock is set back between (and, with 2 threads, during) hits. TLC checks every C04
+    invariant and property under NextSetBack; the 1-thread graph is walked and replayed into the real limiter, the
+    virtual clock following the model's - a limiter that measures the distance to the last fire without its sign, or
+    forgets the last fire when time runs backwards, fires where the model refuses (or the other way round)."""
+    cfg = mc_cfg('MCConfigsSetBack', threads=2, maxnow=3 if quick else 4, hits=3)
+    cfg['next_'] = 'NextSetBack'
+    c.mc('MC_Limiter', cfg, label='clock set back, 2 threads', must_cover=['SetBack', 'Reserve', 'Collect'])
+    cfg = mc_cfg('MCConfigsSetBack', threads=1, maxnow=4, hits=4)
+    cfg['next_'] = 'NextSetBack'
+    r = c.mc('MC_Limiter', cfg, label='clock set back, sequential graph for replay', dump=True, coverage=False)
+    before = c.traces_validated
+    replay_sequential(c, r.graph, 120 if quick else 2500, rng, wd)
+    c.extra['setback_walks_replayed'] = c.traces_validated - before
+
+
 def replay_sequential(c, graph, n, rng, wd):
     mismatches = 0
     for walk in core.random_walks(graph, rng, n):
@@ -51,7 +67,7 @@ def replay_sequential(c, graph, n, rng, wd):
             pending = None
             ok = True
             for (a, args, st) in walk[1:]:
-                if a == 'Advance':
+                if a in ('Advance', 'SetBackTo'):
                     sysm.rig.clock.set(st['now'])
                     steps.append(['Tick', st['now']])
                 elif a == 'Reinstall':
@@ -437,7 +453,14 @@ def run(c):
         tr, esc = history_trace(rng, cfg, wd, 0, 0, gaps=[0, 1, 0, 2, 1, 1, 3])
         traces.append(tr)
         meta.append({'cfg': cfg, 'errors': esc, 'hits': 7, 'kind': 'unparsable-text-shared'})
+    # the wall clock set back between the hits (Limiter!SetBack), every settings record
+    for cfg in cfgs:
+        for gaps in ([0, 3, -2, 1, 1, 3, -4, 2, 0, 5], [2, 2, -3, 0, 1, 1, 1, 6, -5, 1]):
+            tr, esc = history_trace(rng, cfg, wd, 0, 0, gaps=gaps)
+            traces.append(tr)
+            meta.append({'cfg': cfg, 'errors': esc, 'hits': len(gaps), 'gaps': gaps, 'kind': 'clock-set-back'})
     validate(c, traces, meta, 'history')
+    setback_leg(c, quick, rng, wd)
     window_args_leg(c, wd)
     moved_tracepoint_leg(c, wd)
     multi_action_leg(c, wd)
